@@ -699,7 +699,8 @@ theorem formatList_roundtrip_gen (ha : AlnumOK alnum) (g : Grouping) (gs : Str)
     simp only [numberTypes, typesOf]
     rfl
   rw [hnt] at ht hr ⊢
-  simp only [formatNumberList]
+  simp only [formatNumberList, formatNumberListP]
+  generalize XalanModel.Generated.C17.singlePunctuationTokenIsAlsoSuffix = sb
   have hne : (if fmt.isEmpty then [49] else fmt) ≠ [] := by
     split
     · simp
@@ -744,6 +745,26 @@ theorem formatList_roundtrip_gen (ha : AlnumOK alnum) (g : Grouping) (gs : Str)
         · refine ⟨by simp [typesOf], ?_⟩
           simp only [ne_eq, not_true_eq_false, if_false]
           intro c hc; simp at hc
+      -- the suffix: the trailing token, or (when the code has that branch) the single punctuation token again
+      have htrailH : Homog alnum false
+          (if tI ≠ (t0 :: ts).length then (t0 :: ts).getD tI []
+            else if sb = true ∧ (t0 :: ts).length = 1 ∧ ((t0 :: ts).length > 0 ∧ ¬ firstIsAlnum alnum ((t0 :: ts).getD 0 []) = true)
+              then (t0 :: ts).getD 0 [] else []) := by
+        by_cases hti : tI ≠ (t0 :: ts).length
+        · have := htrail.2
+          simp only [hti, ne_eq, not_false_eq_true, if_true] at this ⊢
+          exact this
+        · simp only [hti, if_false]
+          split
+          · rename_i hc
+            have hnaf : firstIsAlnum alnum t0 = false := by simpa using hc.2.2.2
+            have halt0 : Alt alnum (alnum c) (t0 :: ts) := ⟨ht0ne, ht0h, htsalt⟩
+            obtain ⟨h1, h2⟩ := Alt.mem alnum halt0 t0 (by simp)
+            simpa using homog_of_naf alnum t0 h1 h2 hnaf
+          · intro x hx; simp at hx
+      generalize (if tI ≠ (t0 :: ts).length then (t0 :: ts).getD tI []
+            else if sb = true ∧ (t0 :: ts).length = 1 ∧ ((t0 :: ts).length > 0 ∧ ¬ firstIsAlnum alnum ((t0 :: ts).getD 0 []) = true)
+              then (t0 :: ts).getD 0 [] else []) = trailer at htrailH ⊢
       by_cases haf0 : firstIsAlnum alnum t0 = true
       · -- no leader
         have hcls : alnum c = true := by
@@ -766,8 +787,8 @@ theorem formatList_roundtrip_gen (ha : AlnumOK alnum) (g : Grouping) (gs : Str)
           rw [typesOf_append, htrail.1]; simp
         obtain ⟨body, fs, hb, hbody, hlen, hdec⟩ := fmtLoop_body alnum ha g gs hnum (t0 :: ts) tI htI1.2 (typesOf alnum (t0 :: ts)) ht
           l { it := 0 } [] 0 hl (by simpa using hr) (by simp) haltm hT rfl (fun _ => rfl) (by simp) (by intro s hs; cases hs)
-        refine ⟨[] ++ body ++ (if tI ≠ (t0 :: ts).length then (t0 :: ts).getD tI [] else []), by rw [hb]; rfl, ?_⟩
-        rw [tokenize_leader_body alnum [] _ (by intro c hc; simp at hc) htrail.2 fs body hbody]
+        refine ⟨[] ++ body ++ trailer, by rw [hb]; rfl, ?_⟩
+        rw [tokenize_leader_body alnum [] _ (by intro c hc; simp at hc) htrailH fs body hbody]
         exact mapM_zipIdx_decode (fun i s => decodeNumber ((typesOf alnum (t0 :: ts)).getD i ((typesOf alnum (t0 :: ts)).getLastD 49)) gs s)
           fs l 0 hlen hdec
       · -- leader = t0
@@ -800,8 +821,8 @@ theorem formatList_roundtrip_gen (ha : AlnumOK alnum) (g : Grouping) (gs : Str)
           simp [typesOf, haf0']
         obtain ⟨body, fs, hb, hbody, hlen, hdec⟩ := fmtLoop_body alnum ha g gs hnum (t0 :: ts) tI htI1.2 (typesOf alnum (t0 :: ts)) ht
           l { it := 1 } [] 0 hl (by simpa using hr) htI1.1 haltm hT rfl (fun _ => rfl) (by simp) (by intro s hs; cases hs)
-        refine ⟨(t0 :: ts).getD 0 [] ++ body ++ (if tI ≠ (t0 :: ts).length then (t0 :: ts).getD tI [] else []), by rw [hb]; rfl, ?_⟩
-        rw [tokenize_leader_body alnum _ _ (by simpa using ht0h) htrail.2 fs body hbody]
+        refine ⟨(t0 :: ts).getD 0 [] ++ body ++ trailer, by rw [hb]; rfl, ?_⟩
+        rw [tokenize_leader_body alnum _ _ (by simpa using ht0h) htrailH fs body hbody]
         exact mapM_zipIdx_decode (fun i s => decodeNumber ((typesOf alnum (t0 :: ts)).getD i ((typesOf alnum (t0 :: ts)).getLastD 49)) gs s)
           fs l 0 hlen hdec
 
